@@ -90,6 +90,7 @@ func (c *Check) tlvLoopRules(rule, fnName string, bParam int) {
 		{name: "bytes remain after every advance => no successful return", hook: lenAtLeastOneHook, forbid: forbidAccept},
 	})
 	// advance: the cursor phi's back-edge operand is cursor[2+int(cursor[1]):]
+	fn, bParam = p.loopDelegate(fn, bParam)
 	a := NewAnalysis(p, fn)
 	a.Run()
 	for _, u := range a.Undecided {
@@ -158,6 +159,7 @@ func (c *Check) tlvExactFit(rule, fnName string, bParam int, inner string, typeO
 	if fn == nil {
 		return
 	}
+	fn, bParam = p.loopDelegate(fn, bParam)
 	var cursor *ssa.Phi
 	for _, b := range fn.Blocks {
 		for _, in := range b.Instrs {
@@ -659,4 +661,53 @@ func (c *Check) validateArguments(rule string) {
 		}
 	}
 	c.floor(rule, n, 1, "validate call sites in openSent")
+}
+
+// loopDelegate: when fn has no loop of its own and hands its parameter k, with
+// its whole job, to one helper the rule sets do not know (`return helper(b,
+// …)`), the loop rules are applied to that helper.
+func (p *Prog) loopDelegate(fn *ssa.Function, k int) (*ssa.Function, int) {
+	for _, b := range fn.Blocks {
+		if inLoop(b) {
+			return fn, k
+		}
+	}
+	var site *ssa.Call
+	n := 0
+	ownInstrs(fn, func(in ssa.Instruction) {
+		cl, ok := in.(*ssa.Call)
+		if !ok {
+			return
+		}
+		h := cl.Call.StaticCallee()
+		if h == nil || !p.IsLocal(h) || h.Parent() != nil || knownFuncs[p.Name(h)] || len(h.Blocks) == 0 {
+			return
+		}
+		for _, a := range cl.Call.Args {
+			if a == ssa.Value(fn.Params[k]) {
+				site = cl
+				n++
+			}
+		}
+	})
+	if n != 1 {
+		return fn, k
+	}
+	// its result is this function's result
+	direct := false
+	for _, r := range *site.Referrers() {
+		if ret, ok := r.(*ssa.Return); ok && len(ret.Results) == 1 && ret.Results[0] == ssa.Value(site) {
+			direct = true
+		}
+	}
+	if !direct {
+		return fn, k
+	}
+	h := site.Call.StaticCallee()
+	for i, a := range site.Call.Args {
+		if a == ssa.Value(fn.Params[k]) {
+			return h, i
+		}
+	}
+	return fn, k
 }
